@@ -126,6 +126,8 @@ class CaseGen:
             sd = scen.random_sd(rng, small=self.cfg.get("small", False))
             if rng.random() < self.cfg.get("small_values_frac", 0.0):
                 sd = scen.small_values(rng, sd)
+            elif rng.random() < self.cfg.get("mixed_magnitudes_frac", 0.06):
+                sd = scen.mixed_magnitudes(rng, sd)
             return "random", sd, scen.sd_to_scenario(sd)
         if r < 0.9 and "shipped" in src:
             name = rng.choice(scen.SHIPPED[:6] if rng.random() < 0.8 else scen.SHIPPED)
